@@ -5,6 +5,10 @@
    Model/Evolve1D.v (step_plain) and Model/Evolve2D.v (step_plain2d) through Engine.iter_steps.
    Guards: the order is non-empty (the code raises IndexError otherwise), duplicate-free and lists only
    cells of the automaton; 1 <= r <= N in 1D (the range in which _index_strides yields N windows);
+   r <= R and r <= C in 2D (outside it _get_neighbourhood_indices leaves the grid and the real code raises
+   IndexError, so Model/Evolve2D is tied to the code only there; the proofs do not use this guard -- the
+   centre of a neighbourhood is always in range -- it is stated so that nothing is claimed about radii the
+   correspondence cannot support);
    rows/grids hold values of the automaton's dtype (store z = z) and store is idempotent.
    np.random.shuffle is the oracle sh: the i-th shuffle installs `sh i order`; the only hypothesis is
    that it returns a permutation. *)
@@ -55,7 +59,7 @@ Proof. exact @async_engine_step_1d. Qed.
 
 (* one step of cpl.evolve2d's engine *)
 Theorem C12_engine_step_2d : forall (St : Type) (inner : rule2 St) sh store R C r ty,
-  (forall i l, Permutation l (sh i l)) -> (forall z, store (store z) = store z) -> 1 <= R ->
+  (forall i l, Permutation l (sh i l)) -> (forall z, store (store z) = store z) -> 1 <= R -> r <= R -> r <= C ->
   forall a g t,
     (a_napp a = 0 /\ 1 <= length (a_order a) /\ a_curr a < length (a_order a) /\ NoDup (a_order a) /\
      incl (a_order a) (init_order2 R C)) ->
@@ -70,7 +74,9 @@ Theorem C12_engine_step_2d : forall (St : Type) (inner : rule2 St) sh store R C 
   a_inner (fst out) = fst (inner (a_inner a) nb x t) /\
   a_curr (fst out) = (a_curr a + 1) mod length (a_order a) /\ a_napp (fst out) = 0 /\
   Permutation (a_order a) (a_order (fst out)).
-Proof. exact @async_engine_step_2d. Qed.
+Proof.
+  intros St inner sh store R C r ty Hsh Hst HR _ _. exact (async_engine_step_2d inner sh store R C r ty Hsh Hst HR).
+Qed.
 
 (* async_run, 1D: evolving n steps (numbered from 1, as _evolve_fixed does) with a fresh
    AsynchronousRule(Logged f, update_order = o): the run IS the sequential automaton seq_step1; in step
@@ -92,9 +98,9 @@ Theorem C12_async_run_1d : forall (St : Type) (f : rule1 St) sh, (forall i l, Pe
     length (snd (a_inner (fst res))) = n.
 Proof. exact async_run_1d_stmt. Qed.
 
-(* async_run, 2D (cells are (row, col), visited row-major) *)
+(* async_run, 2D (cells are (row, col), visited row-major); the log clause as in 1D *)
 Theorem C12_async_run_2d : forall (St : Type) (f : rule2 St) sh, (forall i l, Permutation l (sh i l)) ->
-  forall store, (forall z, store (store z) = store z) -> forall R C r ty, 1 <= R ->
+  forall store, (forall z, store (store z) = store z) -> forall R C r ty, 1 <= R -> r <= R -> r <= C ->
   forall n o s0 g d,
     1 <= length o -> NoDup o -> (forall c, In c o -> fst c < R /\ snd c < C) ->
     ((length g = R /\ Forall (fun row => length row = C) g) /\ Forall (Forall (fun z => store z = z)) g) ->
@@ -105,8 +111,12 @@ Theorem C12_async_run_2d : forall (St : Type) (f : rule2 St) sh, (forall i l, Pe
        nth col (nth row (nth (S i) grids d) []) 0%Z = nth col (nth row (nth i grids d) []) 0%Z) /\
     (forall i row col, i < n -> row < R -> col < C -> ~ In (row, col) o ->
        nth col (nth row (nth (S i) grids d) []) 0%Z = nth col (nth row (nth i grids d) []) 0%Z) /\
+    snd (a_inner (fst res)) =
+      calls_of (nat * nat) nbhd2 grid (nbof2 r ty) (map (fun i => nth (i mod length o) o (0, 0)) (seq 0 n)) grids 1 /\
     length (snd (a_inner (fst res))) = n.
-Proof. exact async_run_2d_stmt. Qed.
+Proof.
+  intros St f sh Hsh store Hst R C r ty HR _ _. exact (async_run_2d_stmt St f sh Hsh store Hst R C r ty HR).
+Qed.
 
 (* async_shuffled: any randomize flag, any position k in the cycle, ANY permutation at every shuffle.
    In every step exactly one cell is scheduled — the one at index curr of the current order
@@ -128,7 +138,7 @@ Theorem C12_async_shuffled_1d : forall (St : Type) (f : rule1 St) sh, (forall i 
 Proof. exact async_shuffled_1d_stmt. Qed.
 
 Theorem C12_async_shuffled_2d : forall (St : Type) (f : rule2 St) sh, (forall i l, Permutation l (sh i l)) ->
-  forall store, (forall z, store (store z) = store z) -> forall R C r ty, 1 <= R ->
+  forall store, (forall z, store (store z) = store z) -> forall R C r ty, 1 <= R -> r <= R -> r <= C ->
   forall n o k rd h s0 lg g t d,
     1 <= length o -> k < length o -> NoDup o -> (forall c, In c o -> fst c < R /\ snd c < C) ->
     ((length g = R /\ Forall (fun row => length row = C) g) /\ Forall (Forall (fun z => store z = z)) g) ->
@@ -141,7 +151,9 @@ Theorem C12_async_shuffled_2d : forall (St : Type) (f : rule2 St) sh, (forall i 
          nth col (nth row (nth (S i) grids d) []) 0%Z = nth col (nth row (nth i grids d) []) 0%Z) /\
     snd (a_inner (fst res)) = lg ++ calls_of (nat * nat) nbhd2 grid (nbof2 r ty) tr grids t /\
     length (calls_of (nat * nat) nbhd2 grid (nbof2 r ty) tr grids t) = n.
-Proof. exact async_shuffled_2d_stmt. Qed.
+Proof.
+  intros St f sh Hsh store Hst R C r ty HR _ _. exact (async_shuffled_2d_stmt St f sh Hsh store Hst R C r ty HR).
+Qed.
 
 (* init_order_perm: AsynchronousRule(rule, num_cells = N) / num_cells = (R, C): whatever permutation the
    constructor's shuffle returns, the order lists every cell exactly once (so the run theorems apply). *)
@@ -171,14 +183,16 @@ Theorem C12_async_evolve_1d : forall (St : Type) (inner : rule1 St) sh store N r
 Proof. exact @async_evolve_1d. Qed.
 
 Theorem C12_async_evolve_2d : forall (St : Type) (inner : rule2 St) sh store R C r ty,
-  (forall i l, Permutation l (sh i l)) -> (forall z, store (store z) = store z) -> 1 <= R ->
+  (forall i l, Permutation l (sh i l)) -> (forall z, store (store z) = store z) -> 1 <= R -> r <= R -> r <= C ->
   forall a hist T,
     (a_napp a = 0 /\ 1 <= length (a_order a) /\ a_curr a < length (a_order a) /\ NoDup (a_order a) /\
      incl (a_order a) (init_order2 R C)) ->
     ((length (last hist []) = R /\ Forall (fun row => length row = C) (last hist [])) /\
      Forall (Forall (fun z => store z = z)) (last hist [])) ->
   evolve2d_plain (async_rule2 inner sh) store r ty a hist T = evolve_fixed [] (seq_step2 inner sh store r ty) a hist T.
-Proof. exact @async_evolve_2d. Qed.
+Proof.
+  intros St inner sh store R C r ty Hsh Hst HR _ _. exact (async_evolve_2d inner sh store R C r ty Hsh Hst HR).
+Qed.
 
 (* ---- non-vacuity ---- *)
 (* the hypotheses are met by a proper-subset order on 5 cells, and cells do change: rule 150
@@ -229,3 +243,5 @@ Print Assumptions C12_init_order_perm_1d.
 Print Assumptions C12_init_order_perm_2d.
 Print Assumptions C12_async_evolve_1d.
 Print Assumptions C12_async_evolve_2d.
+From CPL Require Import gen.GenFuns_C12 GenProps.GenFunsEquivC12 GenProps.C12Src. (* source tie: gen/GenFuns_C12.v is regenerated from ca_functions.py on every run *)
+Theorem C12_source_tie : (forall (cell NB St : Type) (ceq : cell -> cell -> bool) (dc : cell) (centre : NB -> Z) (inner : St -> NB -> cell -> nat -> St * Z) (sh : nat -> list cell -> list cell) (a : astate cell St) (n : NB) (c : cell) (t : nat), a_curr a < length (a_order a) -> src_async_call cell NB St ceq inner sh centre (a_rand a) (inj cell St a) n c t = Ok (inj cell St (fst (async_call cell ceq dc NB centre St inner sh a n c t)), snd (async_call cell ceq dc NB centre St inner sh a n c t))) /\ (forall n : list Z, src_async_current_cell_value_1d n = centre1 n) /\ (forall n : nbhd2, src_async_current_cell_value_2d (nb_vals n) = centre2 n). Proof. exact C12_source_translation_agrees. Qed. Print Assumptions C12_source_tie.
